@@ -152,7 +152,7 @@ def lean_sources():
             yield from sorted(d.rglob("*.tmpl"))
 
 
-def lean_obligations(prop: str, extra_modules=(), thorough=False) -> dict:
+def lean_obligations(prop: str, extra_modules=(), thorough=False, pre=None) -> dict:
     """Regenerate model instances, build, grep for forbidden constructs and audit axioms.
 
     Returns dict(ok, obligations=[names], discharged=[names], problems=[str], checker_cmd).
@@ -162,6 +162,14 @@ def lean_obligations(prop: str, extra_modules=(), thorough=False) -> dict:
     lock = open(LEAN / ".lock", "w")
     fcntl.flock(lock, fcntl.LOCK_EX)
     try:
+        if pre is not None:
+            # S2: regenerate Lean definitions from /repo's current source (translator), under the build lock
+            try:
+                msg = pre()
+            except Exception as e:  # the translator could not process the source: the tie is broken
+                msg = f"translator failed: {type(e).__name__}: {e}"
+            if msg:
+                res["problems"].append("S2 " + msg)
         p = subprocess.run([sys.executable, "gen_instances.py"], cwd=LEAN, capture_output=True, text=True)
         if p.returncode != 0:
             res["problems"].append("gen_instances failed: " + p.stdout[-400:] + p.stderr[-400:])
@@ -223,6 +231,19 @@ def lean_obligations(prop: str, extra_modules=(), thorough=False) -> dict:
             res["problems"].append("leanchecker failed: " + (p.stdout + p.stderr)[-400:])
     res["ok"] = not res["problems"] and len(res["discharged"]) == len(names) and len(names) > 0
     return res
+
+
+def s2_trace_core():
+    """PRE_LEAN hook of the properties that rest on the D-Rex kernels: run the symbolic tracer on the
+    current source and rewrite lean/Generated/TracedDrex.lean. Returns a problem string or None."""
+    from .trace import tracer
+
+    traced = tracer.trace_core()
+    tracer.emit_lean(traced)
+    bad = tracer.selfcheck(traced)
+    if bad:
+        return f"tracer self-check failed for {bad} (printed expression != what the Python function computes)"
+    return None
 
 
 # ---------------------------------------------------------------- result
